@@ -22,7 +22,7 @@ RLEAVES = ['mod:m_winnow', 'mod:m_vspec', 'mod:m_rspec', 'fn:number', 'fn:identi
 RCOMPARATORS = ['fn:partial', 'fn:caret', 'fn:tilde', 'fn:primitive', 'fn:partial_desugar_whole', 'fn:caret_desugar_whole', 'fn:tilde_desugar_whole', 'fn:primitive_desugar_whole']
 # how comparators are put together: hyphen ranges, the terminator look-ahead, garbage skipping, the blank separated list of one alternative
 # (-> intersect_all) and the `||` separated list of alternatives (-> concatenation), as whole functions
-RTOP = ['mod:m_rprops', 'fn:parser', 'fn:hyphen', 'fn:hyphen_desugar_whole', 'fn:garbage', 'fn:simple', 'fn:range', 'fn:bound_sets', 'fn:range_set', 'fn:Range::parse_str']
+RTOP = ['mod:m_rprops', 'fn:parser', 'fn:hyphen', 'fn:hyphen_desugar_whole', 'fn:garbage', 'fn:simple', 'fn:range', 'fn:bound_sets', 'fn:range_set', 'fn:Range::parse_str', 'fn:Range::from_str_lifted']
 DESUGAR = RLEAVES + RCOMPARATORS + RTOP + ['clauses:' + f for f in DESUGAR_FNS] + ['fn:Partial::normalize', 'fn:Version::from@m_desugar', 'fn:Version::from@m_version', 'fn:number_check', 'fn:identifier_classify']
 FROM_U64 = ['fn:Version::from@m_version']
 # the representation invariant is ESTABLISHED by everything that builds a Range: the set-operation properties quantify over "ranges obtained
@@ -67,11 +67,11 @@ PROPS = {
     ),
     'C05': dict(
         title='Version::parse accepts exactly the whole well-formed version strings, with the denoted fields',
-        obligations=VGRAMMAR + ['fn:Version::parse_str', 'mod:m_vprops'],
+        obligations=VGRAMMAR + ['fn:Version::parse_str', 'fn:Version::from_str_lifted', 'mod:m_vprops'],
         assumptions=[WINNOW, 'A13\': std `str::parse::<u64>` = optional `+`, ASCII digits, no overflow (ax_parse_u64_digits / ax_parse_u64_nondigit)', 'vstd: `str::len` is the byte length; `Default::default()` of a pair of Vecs is two empty Vecs',
                      'R15: the generic `S: AsRef<str>` entry is replaced by `&str`; R16: the payload of the returned SemverError is opaque (C17)',
                      'reading of the statement: the loose spellings C12\'s quantifier names (leading zeros, v/V prefix followed by blanks, a prerelease without its hyphen, leading / trailing blanks) belong to the accepted language; everything else must be `major.minor.patch[-prerelease][+build]`'],
-        not_decided=['FromStr for Version (one line, delegates to parse): compared with parse by the bounded stand-in', 'the error returned for a rejected text (C17)'],
+        not_decided=['the error returned for a rejected text (C17)'],
         witness='c05',
     ),
     'C12': dict(
